@@ -106,8 +106,15 @@ func (v *Verifier) componentOf(fn *ssa.Function) string {
 				continue
 			}
 		}
-		// a closure that is handed to another goroutine must carry its own
-		// contract; one that is only called in place inherits.
+		// a closure posted on a component's action channel runs on that
+		// component's goroutine
+		if f.Parent() != nil {
+			if c := v.postedTo(f); c != "" {
+				return c
+			}
+		}
+		// any other closure that is handed to another goroutine must carry
+		// its own contract; one that is only called in place inherits.
 		if f.Parent() != nil && closureEscapes(f) {
 			return ""
 		}
@@ -357,4 +364,47 @@ func (v *Verifier) blockingOps(fn *ssa.Function, seen map[*ssa.Function]bool, ba
 			}
 		}
 	}
+}
+
+// postedTo: the component whose actionChan the anonymous function is sent on.
+func (v *Verifier) postedTo(fn *ssa.Function) string {
+	p := fn.Parent()
+	if p == nil {
+		return ""
+	}
+	for _, b := range p.Blocks {
+		for _, ins := range b.Instrs {
+			mc, ok := ins.(*ssa.MakeClosure)
+			if !ok || mc.Fn != ssa.Value(fn) {
+				continue
+			}
+			refs := mc.Referrers()
+			if refs == nil {
+				continue
+			}
+			for _, r := range *refs {
+				snd, ok := r.(*ssa.Send)
+				if !ok || snd.X != ssa.Value(mc) {
+					continue
+				}
+				ld, ok := snd.Chan.(*ssa.UnOp)
+				if !ok {
+					continue
+				}
+				fa, ok := ld.X.(*ssa.FieldAddr)
+				if !ok {
+					continue
+				}
+				structT := fa.X.Type().Underlying().(*types.Pointer).Elem()
+				st := structT.Underlying().(*types.Struct)
+				if st.Field(fa.Field).Name() != "actionChan" {
+					continue
+				}
+				if c := v.ownedStruct(structT); c != "" {
+					return c
+				}
+			}
+		}
+	}
+	return ""
 }
